@@ -59,10 +59,19 @@ impl Options {
 
     /// Sets the maximum allowed delay between sending a [`Ping`](crate::ws::Message::Ping)
     /// and receiving a corresponding [`Pong`](crate::ws::Message::Pong).
+    ///
+    /// The value in effect is never shorter than the keepalive interval, whichever of the
+    /// two is set first.
     #[must_use]
     pub fn keepalive_timeout(mut self, timeout: crate::timing::OptionalDuration) -> Self {
-        self.keepalive_timeout = timeout.max(self.keepalive_interval);
+        self.keepalive_timeout = timeout;
         self
+    }
+
+    /// The keepalive timeout in effect: the configured one, but at least the keepalive interval.
+    #[must_use]
+    pub(crate) fn effective_keepalive_timeout(&self) -> crate::timing::OptionalDuration {
+        self.keepalive_timeout.max(self.keepalive_interval)
     }
 
     /// Number of datagram frames to buffer in the channels on the receiving end.
